@@ -201,6 +201,7 @@ class Goal:
         self.k = 0
         self.fault = fault  # None | dict(kind=..., at=k | region=...)
         self.sat_calls = 0
+        self.first_true = None  # index of the first is_satisfied call that returned True
         self.failed_states = []
 
     def is_satisfied(self, s):
@@ -212,7 +213,10 @@ class Goal:
             if hit:
                 self.failed_states.append(flat_of(self.cfg, s))
                 return do_fault(f["kind"])
-        return any(self.space.distance(s, t) <= self.radius for t in self.targets)
+        ans = any(self.space.distance(s, t) <= self.radius for t in self.targets)
+        if ans and self.first_true is None:
+            self.first_true = i
+        return ans
 
     def distance_goal(self, s):
         return min(max(self.space.distance(s, t) - self.radius, 0.0) for t in self.targets)
@@ -358,6 +362,7 @@ def run_python(sc, fault=None, mirror_false=False):
         chk_obj = whole_checker(fault["whole"])
     err = io.StringIO()
     stage = "setup"
+    t_start = time.time()
     with contextlib.redirect_stderr(err):
         try:
             if sc.get("presetup"):
@@ -389,6 +394,7 @@ def run_python(sc, fault=None, mirror_false=False):
                 tag, states = f"Escaped:{stage}:{type(e).__name__}", None
             else:
                 raise
+    chk.elapsed = time.time() - t_start
     return tag, states, chk, goal, space
 
 
@@ -562,7 +568,10 @@ def scenario(draw, planners=("RRT", "RRTConnect", "RRTStar"), with_obstacles=Tru
     pl = draw(st.sampled_from(list(planners)))
     # mostly a fraction of the extent; a fifth of the time comparable to or larger than the space
     step = draw(st.one_of(fl(0.08, 0.6), fl(0.08, 0.6), fl(0.08, 0.6), fl(0.08, 0.6), fl(0.6, 1.6))) * ext
-    if small_steps and draw(st.booleans()):
+    if small_steps == "moderate":
+        # many iterations per solve, so that the result depends on the whole random stream
+        step = draw(fl(0.03, 0.15)) * ext
+    elif small_steps and draw(st.booleans()):
         # steps below the other numeric parameters (goal bias, radius factor): an argument slip
         # in a constructor arm then lengthens the edges instead of shortening them
         step = draw(fl(0.01, 0.3))
@@ -1048,20 +1057,30 @@ def fault_plan(draw, sc):
         # the callback object itself is faulty: every call fails
         return {"where": where, "kind": "false", "at": "always", "whole": draw(st.sampled_from(WHOLE_KINDS))}
     if draw(st.booleans()):
-        return {"where": where, "kind": kind, "at": draw(st.integers(0, 39))}
+        plan = {"where": where, "kind": kind, "at": draw(st.integers(0, 39))}
+        if where == "goal" and draw(st.booleans()):
+            # aim the one failing call at the call that decides the run: the first one whose
+            # state really satisfies the goal (found by a fault-free run of the same scenario)
+            plan["at_goal_hit"] = True
+        return plan
     # region: a ball (space metric) around a random state, or around a state the planner is
     # certain to ask about more than once (a goal target: goal samples, goal-tree roots; the
     # start), from a pin-point (1e-3 of the extent) to a third of the space
     cfg = sc["space"]
-    which = draw(st.sampled_from(["any", "any", "target", "target", "start"]))
+    # a goal fault matters only where the goal test can succeed: mostly on a target
+    which = draw(st.sampled_from(["any", "target", "target", "target", "target"] if where == "goal"
+                                 else ["any", "any", "target", "target", "start"]))
     if which == "target":
         c = draw(st.sampled_from(sc["targets"]))
     elif which == "start":
         c = sc["start"]
     else:
         c = draw(state_in(cfg))
-    r = draw(st.one_of(fl(0.05, 0.35), st.sampled_from([1e-3, 1e-2, 0.03])))
-    return {"where": where, "kind": kind, "region": [list(c), r * approx_extent(cfg)], "centre": which}
+    r = draw(st.one_of(fl(0.05, 0.35), st.sampled_from([1e-3, 1e-2, 0.03]))) * approx_extent(cfg)
+    if where == "goal" and which == "target" and draw(st.integers(0, 3)) > 0:
+        # comparable to the goal region itself: covers part or all of it
+        r = sc["goal_radius"] * draw(fl(0.5, 2.5))
+    return {"where": where, "kind": kind, "region": [list(c), r], "centre": which}
 
 
 @st.composite
@@ -1076,6 +1095,13 @@ def c20_check(sc, stats):
     part = "fault-injection"
     fault = sc["fault"]
     cfg = sc["space"]
+    if fault.get("at_goal_hit"):
+        _, _, _, g0, _ = run_python(sc)
+        if g0.first_true is not None:
+            fault = dict(fault, at=g0.first_true)
+            fault.pop("at_goal_hit")
+            sc["fault"] = fault
+            stats.label("fault-at-the-first-satisfying-goal-call")
     tagA, pA, chkA, goalA, spaceA = run_python(sc, fault=fault)
     reached = len(chkA.failed_states) + len(goalA.failed_states)
     if fault.get("at") == "always":
@@ -1125,6 +1151,15 @@ def c20_check(sc, stats):
         return
     tagB, pB, chkB, goalB, _ = run_python(sc, fault=fault, mirror_false=True)
     if tagA == "Timeout" or tagB == "Timeout":
+        # a time limit hit is normally inconclusive - unless the other run, which by the property
+        # does the same work, finished in an eighth of the limit: then the two runs did not do
+        # the same work
+        other = chkB.elapsed if tagA == "Timeout" else chkA.elapsed
+        if tagA != tagB and other < sc["timeout"] / 8:
+            stats.case(sc, True, part)
+            stats.fail(f"C20:outcome-differs-from-false:{sc['planner']}:{fault['where']}:{fkind}",
+                       f"with the failing callback: {tagA}; with the callback returning False at the same points: {tagB} "
+                       f"(the run that finished took {other * 1e3:.1f} ms of the {sc['timeout'] * 1e3:.0f} ms limit)", sc, part)
         stats.discard("timeout")
         return
     tag0, p0, _, _, _ = run_python(sc)
@@ -1145,7 +1180,7 @@ def c20_check(sc, stats):
 
 C20_RULE = ("Hypothesis-generated C19 scenarios (all four planners, six variants) plus a fault plan: the validity callback or the goal's "
             "is_satisfied fails (raises one of eight Exception types or KeyboardInterrupt / GeneratorExit / a BaseException subclass; returns None / 'yes' / 'invalid' / 1 / 0.5 / [] / [False]) on every state "
-            "inside a fault region (ball in the space's metric) or at its k-th call, k < 40; in a tenth of the plans the callback object itself is faulty (takes no argument, is not callable, is a C function that rejects states), so that every call fails in the call machinery. Run A uses the failing callbacks, run B callbacks "
+            "inside a fault region (ball in the space's metric) or at its k-th call, k < 40 (for goal faults half of the time the call at which a fault-free run first sees the goal satisfied); in a tenth of the plans the callback object itself is faulty (takes no argument, is not callable, is a C function that rejects states), so that every call fails in the call machinery. Run A uses the failing callbacks, run B callbacks "
             "that return False at exactly those points, same seed: outcome and path must be identical bit for bit, and (region faults) no state "
             "of A's path may be one on which the callback failed. PRM (wall-clock roadmap) is checked for the second clause only. 8 worker "
             "processes with derived seeds. Non-trivial = the fault was reached and run B differs from the fault-free run.")
@@ -1156,7 +1191,7 @@ C20_ASSUME = ["JavaScript/WASM half of the anchor is not executable in this sand
 
 def worker_c20(tier, k):
     stats = Stats("C20", tier)
-    n = (1200 if tier == "quick" else 12000) // WORKERS
+    n = (2400 if tier == "quick" else 16000) // WORKERS
     try:
         @seed(SEED * 1000 + k)
         @hyp_settings(n)
@@ -1186,6 +1221,7 @@ def c07_check(sc, stats):
     stats.label("kind:" + sc["space"]["kind"])
     if sc["seed"] == 0:
         stats.label("seed-0")
+    stats.label(f"arm:{sc['planner']}:{sc['space']['kind']}:{tag1 if tag1 == tag2 else tag1 + '/' + tag2}")
     if tag1 == "Timeout" or tag2 == "Timeout":
         stats.discard("timeout")
         return
@@ -1308,16 +1344,17 @@ def run_c17(tier):
 
 
 C07_RULE = ("Hypothesis-generated C19 scenarios (six from_* variants x RRT / RRT-Connect / RRT*, seeds incl. 0) run twice through "
-            "oxmpl_py with fresh objects: outcome and path must be identical bit for bit. Non-trivial = Ok(path) with >= 3 states.")
+            "oxmpl_py with fresh objects (steps of 3-15 % of the extent, so that a path depends on many draws): outcome and path must be "
+            "identical bit for bit. Non-trivial = Ok(path) with >= 3 states.")
 
 
 def worker_c07(tier, k):
     stats = Stats("C07", tier)
-    n = (800 if tier == "quick" else 6000) // WORKERS
+    n = (1200 if tier == "quick" else 8000) // WORKERS
     try:
         @seed(SEED * 1000 + k)
         @hyp_settings(n)
-        @given(scenario())
+        @given(scenario(small_steps="moderate"))
         def t(sc):
             c07_check(sc, stats)
 
